@@ -519,6 +519,11 @@ class Scheduler:
             if self.step_no >= self.max_steps:
                 verdict = "step-cap"
                 break
+            if all(c[3] in YIELD_LABELS or c[2] == ENV_KIND for c in choices) and not self.sleepers_pending and \
+                    any(c[3].startswith("make-put") for c in choices):
+                # only pollers and timers can run, and the make parent holds a token: it always returns it eventually
+                # (an obligation of the environment, not a deviation) -- nobody may be kept waiting for it for ever
+                choices = [c for c in choices if c[3].startswith("make-put")]
             gs = self.global_state()
             self.state_hashes.add(gs)
             if all(c[3] in YIELD_LABELS or c[2] == ENV_KIND for c in choices) and not self.sleepers_pending:
